@@ -671,3 +671,116 @@ def typed_tree(rng, kind, depth):
 
     t = boolean(depth) if kind == "b" else num(kind, depth)
     return t[1] if t[0] == "P" else t
+
+
+# ----------------------------------------------------------------- enumred leg -------
+
+ENUM_INTS = [0, 1, -1, 2, 3, 7, 8, 31, 32, 100, 46341, 65536, 123456789, 2147483647,
+             -2147483647, -2147483648]
+
+
+def enum_to_int(t):
+    """the run-time counterpart: enumerator references become int operands"""
+    if t[0] == "L":
+        return ("L", "i", t[2]) if t[1] == "e" else t
+    return (t[0],) + tuple(enum_to_int(c) if isinstance(c, tuple) else c for c in t[1:])
+
+
+def as_int_tree(t, is_bool):
+    """an enumerator must be an int: a bool expression is read through ?:"""
+    return ("C", atom(t), ("L", "i", 10), ("L", "i", 11)) if is_bool else t
+
+
+def program_enum(t):
+    """enum E { k = <t> } with every enumerator reference (leaf kind e) declared in an enum
+    of its own (values inside one enum must be distinct); main reads E::k back as an int"""
+    ls = leaves(t)
+    decls, texts = [], []
+    for i, l in enumerate(ls):
+        if l[1] == "e":
+            decls.append("enum A%d { a = %s }" % (i, al.lit_int(l[2])))
+            texts.append("A%d::a" % i)
+        else:
+            texts.append(lit_text(l, {}))
+    body = expr_text(t, lambda i, leaf: texts[i])
+    return "%s\nenum E { k = %s }\nfunc main() -> int { var x = E::k; x + 0 }" % ("\n".join(decls), body)
+
+
+def enum_cases(rng, per_op, deep):
+    """trees for the enumred leg: (tree as int-valued initialiser, root description)"""
+    out = []
+
+    def leaf(v=None):
+        v = rng.choice(ENUM_INTS) if v is None else v
+        if rng.random() < 0.3:
+            v = rng.randrange(-50, 50)
+        return ("L", "e" if rng.random() < 0.35 else "i", v)
+
+    def pair(op):
+        a = leaf()
+        if op in ("shl", "shr"):
+            return a, ("L", rng.choice("ie"), rng.choice([0, 1, 2, 30, 31]))
+        r = rng.random()
+        if r < 0.3:
+            return a, ("L", rng.choice("ie"), a[2])          # equal operands
+        if r < 0.4:
+            return a, ("L", "i", rng.choice([a[2] - 1 if a[2] > al.INT_MIN else a[2], a[2] + 1 if a[2] < al.INT_MAX else a[2]]))
+        return a, leaf()
+
+    def cmp_tree():
+        op = rng.choice(["lt", "gt", "lte", "gte"])
+        a, b = pair(op)
+        return ("P", ("B", op, a, b))
+
+    def int_tree(d):
+        if d == 0 or rng.random() < 0.25:
+            return leaf()
+        r = rng.random()
+        if r < 0.55:
+            op = rng.choice(["add", "sub", "mul", "div", "mod", "band", "bor", "bxor", "shl", "shr"])
+            if op in ("shl", "shr"):
+                return ("P", ("B", op, int_tree(d - 1), ("L", "i", rng.choice([0, 1, 5, 31]))))
+            return ("P", ("B", op, int_tree(d - 1), int_tree(d - 1)))
+        if r < 0.7:
+            return ("P", ("U", rng.choice(["neg", "bnot"]), int_tree(d - 1)))
+        return ("P", ("C", bool_tree(d - 1), int_tree(d - 1), int_tree(d - 1)))
+
+    def bool_tree(d):
+        if d == 0 or rng.random() < 0.5:
+            return cmp_tree() if rng.random() < 0.85 else ("L", "b", rng.randrange(2))
+        r = rng.random()
+        if r < 0.6:
+            return ("P", ("B", rng.choice(["and", "or"]), bool_tree(d - 1), bool_tree(d - 1)))
+        if r < 0.8:
+            return ("P", ("U", "not", bool_tree(d - 1)))
+        return ("P", ("B", rng.choice(["eq", "neq"]), bool_tree(d - 1), bool_tree(d - 1)))
+
+    for op in ["add", "sub", "mul", "div", "mod", "band", "bor", "bxor", "shl", "shr"]:
+        for k in range(per_op):
+            a, b = pair(op)
+            if op in ("div", "mod") and k == 0:
+                a, b = ("L", "i", al.INT_MIN), ("L", "i", -1)
+            if op in ("div", "mod") and k == 1:
+                b = ("L", "i", 0)
+            out.append(("B", op, a, b))
+    for op in ["lt", "gt", "lte", "gte", "eq", "neq"]:
+        for k in range(per_op if op not in ("eq", "neq") else max(2, per_op // 4)):
+            a, b = pair(op)
+            out.append(as_int_tree(("B", op, a, b), True))
+    for op in ["neg", "bnot"]:
+        for k in range(max(3, per_op // 2)):
+            out.append(("U", op, leaf()))
+    for k in range(per_op):
+        out.append(as_int_tree(("B", rng.choice(["and", "or"]), cmp_tree(), cmp_tree()), True))
+        out.append(as_int_tree(("U", "not", cmp_tree()), True))
+        out.append(as_int_tree(("B", rng.choice(["eq", "neq"]), cmp_tree(), cmp_tree()), True))
+        out.append(("C", cmp_tree(), leaf(), leaf()))
+        # a division by zero in the operand that is never evaluated
+        z = ("P", ("B", "lt", ("P", ("B", rng.choice(["div", "mod"]), leaf(), ("L", "i", 0))), leaf()))
+        b = rng.randrange(2)
+        out.append(as_int_tree(("B", rng.choice(["and", "or"]), ("L", "b", b), z), True))
+        out.append(("C", ("L", "b", b), leaf(), ("P", ("B", "div", leaf(), ("L", "i", 0)))))
+    for k in range(deep):
+        t = int_tree(rng.choice([2, 2, 3]))
+        out.append(t[1] if t[0] == "P" else t)
+    return out
